@@ -8,6 +8,8 @@ From NV.C16 Require Import Model Proofs1 Proofs2 Proofs3 ProofsSrc FibreModel Fi
 From NV.Generated Require Import QuantileMacros FffBlas.
 From NV.C16 Require Import BlasModel BlasProofs.
 From Coq Require Import Ring.
+From Coq Require Import Qabs.
+From NV.C16 Require Import SplineModel SplineProofs.
 Import ListNotations.
 Close Scope Q_scope.
 
@@ -398,3 +400,237 @@ Example blas_dsyrk_example :     (* Upper, Trans, square: upper triangle of A^T 
   = Some (OpC, [10; 14; 7; 20]%Z).
 Proof. vm_compute. reflexivity. Qed.
 
+(* ================================================================ cubic_spline.c *)
+Section SplineProperties.
+(* ======================================================================
+   C16 / cubic spline - property theorems (snippet for coq/C16/Properties.v).
+   Needs (put with the other imports of Properties.v):
+
+     Require Import QArith Qround Qabs Lqa.
+     From Coq Require Import ZArith List Bool Lia.
+     From NV.C16 Require Import SplineModel SplineProofs.
+     Import ListNotations.
+
+   All statements below are written in Q_scope (QArith opens it); Z facts
+   carry explicit %Z.  If Properties.v does `Close Scope Q_scope.`, wrap this
+   block in `Local Open Scope Q_scope.` ... (it is written that way below).
+   ====================================================================== *)
+Local Open Scope Q_scope.
+
+(* ---- cubic_spline_basis (cubic_spline.c:58-78), for ALL rational x.
+   `cubic_spline_basis_gen c` is the C function with the literal
+   0.66666666666667 abstracted as c; c23_literal / c23_double instantiate it. *)
+
+(* B(0) = c, B(1) = B(-1) = 1/6, B(x) = 0 for |x| >= 2 *)
+Theorem spline_basis_values : forall c : Q,
+  cubic_spline_basis_gen c 0 == c /\
+  cubic_spline_basis_gen c 1 == 1#6 /\
+  cubic_spline_basis_gen c (-1) == 1#6 /\
+  (forall x, 2 <= Qabs x -> cubic_spline_basis_gen c x == 0).
+Proof. exact basis_values. Qed.
+Print Assumptions spline_basis_values.
+
+Theorem spline_basis_even : forall c x : Q,
+  cubic_spline_basis_gen c (- x) == cubic_spline_basis_gen c x.
+Proof. exact basis_even. Qed.
+Print Assumptions spline_basis_even.
+
+Theorem spline_basis_nonneg : forall c x : Q,
+  1#2 <= c -> 0 <= cubic_spline_basis_gen c x.
+Proof. exact basis_nonneg. Qed.
+Print Assumptions spline_basis_nonneg.
+
+(* partition of unity, offset form: for 0 <= t < 1 the four weights sum to 1
+   when the constant is exactly 2/3 *)
+Theorem spline_basis_partition : forall c t : Q, c == 2#3 -> 0 <= t -> t < 1 ->
+  cubic_spline_basis_gen c (t + 1) + cubic_spline_basis_gen c t +
+  cubic_spline_basis_gen c (t - 1) + cubic_spline_basis_gen c (t - 2) == 1.
+Proof. exact basis_partition_exact. Qed.
+Print Assumptions spline_basis_partition.
+
+(* ... generalised to every rational x: the four integer shifts floor(x)-1..floor(x)+2
+   sum to 1 and every other integer shift has weight 0 *)
+Theorem spline_basis_partition_all_x : forall c x : Q, c == 2#3 ->
+  cubic_spline_basis_gen c (x - inject_Z (Qfloor x - 1)) + cubic_spline_basis_gen c (x - inject_Z (Qfloor x)) +
+  cubic_spline_basis_gen c (x - inject_Z (Qfloor x + 1)) + cubic_spline_basis_gen c (x - inject_Z (Qfloor x + 2)) == 1.
+Proof. exact basis_partition_floor. Qed.
+Print Assumptions spline_basis_partition_all_x.
+
+Theorem spline_basis_other_shifts_zero : forall (c x : Q) (j : Z),
+  (j <= Qfloor x - 2 \/ Qfloor x + 3 <= j)%Z -> cubic_spline_basis_gen c (x - inject_Z j) == 0.
+Proof. exact basis_other_shifts_zero. Qed.
+Print Assumptions spline_basis_other_shifts_zero.
+
+(* The C does not use 2/3 but the decimal 0.66666666666667: with ANY constant c the
+   four weights sum to 1 within 2|c - 2/3| (exactly 1 + 2(c-2/3) for 0<t<1), i.e.
+   within 1/(15*10^13) for the literal and for the double the compiler rounds it to. *)
+Theorem spline_basis_partition_any_constant : forall c t : Q, 0 <= t -> t < 1 ->
+  Qabs (cubic_spline_basis_gen c (t + 1) + cubic_spline_basis_gen c t +
+        cubic_spline_basis_gen c (t - 1) + cubic_spline_basis_gen c (t - 2) - 1)
+  <= 2 * Qabs (c - (2#3)).
+Proof. exact basis_partition_bound. Qed.
+Print Assumptions spline_basis_partition_any_constant.
+
+Theorem spline_source_constant_error :
+  c23_literal - (2#3) == 1 # 300000000000000 /\
+  Qabs (c23_double - c23_literal) <= 1 # 18014398509481984 /\
+  1#2 <= c23_literal /\ 1#2 <= c23_double.
+Proof.
+  split; [exact c23_literal_error|]. split; [exact c23_double_close|].
+  split; [exact c23_literal_ge_half|exact c23_double_ge_half].
+Qed.
+Print Assumptions spline_source_constant_error.
+
+(* ---- boundary / mirror index maps (cubic_spline.c:644-710) *)
+
+(* Whenever the guard of _mirror_grid_neighbors passes - for ANY coordinate and ANY
+   ddim, whatever _apply_boundary_conditions did before - the four neighbours
+   nx..px=nx+3 are mapped by _mirrored_position into [0, ddim] = valid indices of an
+   axis of extent dim = ddim+1.  (No out-of-range index exists: no finding here.) *)
+Theorem mirror_index_in_bounds : forall (x : Q) (ddim nx px : Z),
+  mirror_grid_neighbors x ddim = Some (nx, px) ->
+  px = (nx + 3)%Z /\
+  forall xx : Z, (nx <= xx <= px)%Z -> (0 <= mirrored_position xx ddim <= ddim)%Z.
+Proof.
+  intros x ddim nx px H. split.
+  - apply (neighbors_guard _ _ _ _ H).
+  - exact (mirror_index_in_bounds_lemma x ddim nx px H).
+Qed.
+Print Assumptions mirror_index_in_bounds.
+
+(* for every mode and coordinate, every coefficient position that
+   cubic_spline_sample1d reads is inside the array *)
+Theorem sample_positions_in_bounds_all_modes :
+  forall (c : Q) (mode ddim : Z) (x : Q) (pos : list Z) (ws : list Q) (w : Q),
+  sample1d_plan c mode ddim x = Some (pos, ws, w) ->
+  Forall (fun p => (0 <= p <= ddim)%Z) pos.
+Proof. exact sample_positions_in_bounds. Qed.
+Print Assumptions sample_positions_in_bounds_all_modes.
+
+(* what _apply_boundary_conditions returns: coordinate inside the once-mirrored grid
+   (inside the grid itself for 'zero'/'nearest'), weight in [0,1] *)
+Theorem boundary_conditions_range : forall (mode ddim : Z) (x x' w : Q),
+  (0 <= ddim)%Z -> apply_boundary_conditions mode ddim x = Some (x', w) ->
+  inject_Z (- ddim) <= x' /\ x' <= inject_Z (2 * ddim) /\ 0 <= w /\ w <= 1 /\
+  ((mode = 0 \/ mode = 1)%Z -> 0 <= x' /\ x' <= inject_Z ddim).
+Proof. exact boundary_range. Qed.
+Print Assumptions boundary_conditions_range.
+
+(* the four neighbours are floor(x')-1 .. floor(x')+2 and (ideal constant) their
+   weights are a partition of unity, in every mode *)
+Theorem sample_weights_partition :
+  forall (c : Q) (mode ddim : Z) (x : Q) (pos : list Z) (ws : list Q) (w : Q),
+  c == 2#3 -> (0 <= ddim)%Z ->
+  sample1d_plan c mode ddim x = Some (pos, ws, w) ->
+  fold_right Qplus 0 ws == 1.
+Proof. exact sample_weights_sum. Qed.
+Print Assumptions sample_weights_partition.
+
+(* ---- sampling at grid points (cubic_spline_sample1d; 2d..4d are tensor products) *)
+
+(* extent >= 3, every mode, every grid point k: the sample is
+   coef[m(k-1)]/6 + c*coef[k] + coef[m(k+1)]/6 *)
+Theorem sample_at_grid_point_formula : forall (c : Q) (mode : Z) (coef : list Q) (k : Z),
+  let ddim := (Z.of_nat (length coef) - 1)%Z in
+  (2 <= ddim)%Z -> (0 <= k <= ddim)%Z ->
+  sample1d_gen c mode (inject_Z k) coef ==
+    (1#6) * coef_at coef (mirrored_position (k - 1) ddim) + c * coef_at coef k
+    + (1#6) * coef_at coef (mirrored_position (k + 1) ddim).
+Proof. exact sample_at_grid_point. Qed.
+Print Assumptions sample_at_grid_point_formula.
+
+(* hence: coefficients that satisfy the mirror-boundary interpolation identity
+   (c[k-1] + 4 c[k] + c[k+1])/6 = s[k] are sampled back to s[k] exactly, in every
+   mode, at every grid point including the first and the last - for extents >= 3
+   and the ideal constant 2/3 *)
+Theorem sample_at_grid_points_exact : forall (c : Q) (mode : Z) (coef : list Q) (k : Z) (s : Q),
+  let ddim := (Z.of_nat (length coef) - 1)%Z in
+  c == 2#3 -> (2 <= ddim)%Z -> (0 <= k <= ddim)%Z ->
+  interp_at coef ddim k == s ->
+  sample1d_gen c mode (inject_Z k) coef == s.
+Proof. exact sample_reproduces_grid. Qed.
+Print Assumptions sample_at_grid_points_exact.
+
+(* with the constant the C actually uses the deviation is (c - 2/3) * coef[k]
+   (3.3e-15 * coef[k] for the literal) *)
+Theorem sample_at_grid_points_deviation : forall (c : Q) (mode : Z) (coef : list Q) (k : Z) (s : Q),
+  let ddim := (Z.of_nat (length coef) - 1)%Z in
+  (2 <= ddim)%Z -> (0 <= k <= ddim)%Z ->
+  interp_at coef ddim k == s ->
+  sample1d_gen c mode (inject_Z k) coef - s == (c - (2#3)) * coef_at coef k.
+Proof. exact sample_grid_deviation. Qed.
+Print Assumptions sample_at_grid_points_deviation.
+
+(* ---- REFUTED clause (finding): "reproduces the samples exactly at grid points under
+   every boundary mode" fails for extents 1 and 2.
+   extent 1: every sample is 0.0 (guard 3 <= px <= 3*ddim = 0 never passes);
+   extent 2: the sample at the last grid point x = 1 is 0.0 (px = 4 > 3*ddim = 3). *)
+Theorem sample_extent1_always_zero_refuted : forall (c : Q) (mode : Z) (x a : Q),
+  sample1d_gen c mode x [a] == 0.
+Proof. exact sample_extent1_zero. Qed.
+Print Assumptions sample_extent1_always_zero_refuted.
+
+Theorem sample_extent2_last_grid_point_refuted :
+  exists (coef : list Q) (s : Q),
+    interp_at coef 1 1 == s /\ ~ s == 0 /\
+    forall (c : Q) (mode : Z), sample1d_gen c mode 1 coef == 0.
+Proof.
+  exists [-2; 7], 4. split; [reflexivity|]. split; [discriminate|].
+  intros c mode. apply sample_extent2_last_zero.
+Qed.
+Print Assumptions sample_extent2_last_grid_point_refuted.
+
+(* reflect mode: coordinates in [-ddim, 1-ddim) and [2 ddim - 1, 2 ddim] are accepted by
+   _apply_boundary_conditions but have no neighbour set inside the once-mirrored grid,
+   so the sample is 0.0 there (documented: "Returns 0 if no neighbor can be found") *)
+Theorem reflect_outer_step_has_no_neighbors : forall (x : Q) (ddim : Z), (0 <= ddim)%Z ->
+  (inject_Z (- ddim) <= x -> x < inject_Z (1 - ddim) -> mirror_grid_neighbors x ddim = None) /\
+  (inject_Z (2 * ddim - 1) <= x -> mirror_grid_neighbors x ddim = None).
+Proof.
+  intros x ddim Hd. split.
+  - exact (reflect_gap_low x ddim Hd).
+  - exact (reflect_gap_high x ddim Hd).
+Qed.
+Print Assumptions reflect_outer_step_has_no_neighbors.
+
+(* ---- not proved: the recursion of _cubic_spline_transform1d (pole sqrt(3)-2).
+   spline_transform_interpolates is a TEST in the harness (interpolation identity and
+   scipy.ndimage.spline_filter at 1e-10 on the implementation output). *)
+
+(* ---- non-vacuity *)
+Example spline_basis_value_example : cubic_spline_basis (1#2) == (66666666666667 # 100000000000000) - (3#16).
+Proof. reflexivity. Qed.
+
+Example spline_basis_outer_example : cubic_spline_basis_gen (2#3) (-3#2) == 1#48.
+Proof. reflexivity. Qed.
+
+Example spline_partition_example :
+  cubic_spline_basis_gen (2#3) ((1#4) + 1) + cubic_spline_basis_gen (2#3) (1#4) +
+  cubic_spline_basis_gen (2#3) ((1#4) - 1) + cubic_spline_basis_gen (2#3) ((1#4) - 2) == 1.
+Proof. reflexivity. Qed.
+
+(* reflect mode, extent 5, x = -1/2: neighbours -2..1 are read at positions 2,1,0,1 *)
+Example sample_plan_example :
+  match sample1d_plan (2#3) 2 4 (-1#2) with
+  | Some (pos, _, w) => pos = [2; 1; 0; 1]%Z /\ w == 1
+  | None => False
+  end.
+Proof. vm_compute. split; reflexivity. Qed.
+
+(* 'zero' mode half a voxel outside: weight 1/2 at the clamped coordinate *)
+Example sample_zero_mode_example : sample1d_gen (2#3) 0 (-1#2) [6; 6; 6; 6] == 3.
+Proof. reflexivity. Qed.
+
+(* samples 1,4,9 have spline coefficients 0,3,12 (mirror boundaries); sampled back exactly *)
+Example sample_grid_example :
+  interp_at [0; 3; 12] 2 0 == 1 /\ interp_at [0; 3; 12] 2 1 == 4 /\ interp_at [0; 3; 12] 2 2 == 9 /\
+  sample1d_gen (2#3) 1 0 [0; 3; 12] == 1 /\ sample1d_gen (2#3) 1 1 [0; 3; 12] == 4 /\
+  sample1d_gen (2#3) 1 2 [0; 3; 12] == 9.
+Proof. repeat split; reflexivity. Qed.
+
+(* the refuted clause on the concrete replay: coefficients [-2; 7] of samples [1; 4] *)
+Example sample_extent2_example :
+  sample1d_gen (2#3) 1 0 [-2; 7] == 1 /\ sample1d_gen (2#3) 1 1 [-2; 7] == 0.
+Proof. split; reflexivity. Qed.
+
+End SplineProperties.
